@@ -322,6 +322,40 @@ func runC01(r *mon.Run, replay string) {
 	r.Rule("random fork trees per regime (mix / v1only / v2only) with single-field corruptions, submitted in PRNG schedules (split, reversed, duplicated, orphan-first, branch-mixing batches); plus the enumerated class 'invalid block at depth d of a heavier fork of length L forking k below the tip' for all d<=L<=6,k<=6 per regime, resubmission with two more blocks, pre-validated v2 batches (also on top of a header-checked invalid block), and leap-frogging near-tie forks on networks with a non-zero sufficiently-heavier margin; every call is audited (tip, state bytes vs pure consensus replay, index, blocks, states, element buckets and served proofs, unchanged view on failure); distinct = (scenario shape, regime, stream, reorgs, rollbacks)")
 	r.Assume("go.sia.tech/core/consensus is the oracle for block validity and state")
 	r.Assume("blocks with timestamps > now+3h are refused as future blocks (not a consensus rule); generated ones are either hours in the past or > now+4h")
+	if st, ok := replayStream(replay); ok {
+		// (VERIF_SEED, stream) determines a case completely
+		switch {
+		case st >= 920000:
+			runGhostScenario(r, st)
+		case st >= 910000:
+			runNearTieScenario(r, st)
+		case st >= 900000:
+			runValidatedScenario(r, st)
+		case st >= 500000:
+			for _, reg := range regimes {
+				for k := 1; k <= 6; k++ {
+					for L := 1; L <= 6; L++ {
+						for d := 1; d <= L; d++ {
+							for _, m := range []int{4, 6} {
+								if k <= m && L <= m && uint64(500000+indexOfScenario(reg, d, L, k, m)) == st {
+									runInvalidForkScenario(r, st, reg, d, L, k)
+									return
+								}
+							}
+						}
+					}
+				}
+			}
+		default:
+			i := int(st - 1000)
+			sz := 30
+			if i%125 == 0 && r.Thorough() {
+				sz = 200 + (i%7)*30
+			}
+			runTreeHistory(r, st, regimes[i%3], sz)
+		}
+		return
+	}
 	nTrees := r.Pick(600, 5000)
 	size := 30
 	parallel(nTrees, func(i int) {
@@ -366,6 +400,25 @@ func runC01(r *mon.Run, replay string) {
 	r.Floor("calls_audited", 500)
 	_ = sort.Strings
 	_ = strings.Join
+}
+
+// indexOfScenario is the position of (regime,d,L,k) in the enumeration of
+// runC01 for the given bound m on L and k.
+func indexOfScenario(regime string, d, L, k, m int) int {
+	i := 0
+	for _, reg := range regimes {
+		for kk := 1; kk <= m; kk++ {
+			for LL := 1; LL <= m; LL++ {
+				for dd := 1; dd <= LL; dd++ {
+					if reg == regime && kk == k && LL == L && dd == d {
+						return i
+					}
+					i++
+				}
+			}
+		}
+	}
+	return -1
 }
 
 var zeroT = time.Time{}
